@@ -91,14 +91,14 @@ def snapshot(a):
             "total_cost": getattr(a, "total_cost", None)}
 
 
-def run_task(cls_name, ctype, cone, W, N, steps, batch, prop, tier, budget=None, initial_S=None):
+def run_task(cls_name, ctype, cone, W, N, steps, batch, prop, tier, budget=None, initial_S=None, initial_P=None):
     W = np.asarray(W, dtype=float) if W is not None else None
     mod, aq, cr, ds, em, vo, oc, uu = _modules(cls_name)
     m = W.shape[1] if W is not None else 2
     K = W.shape[0] if W is not None else m
     alpha = _alpha_for(W) if W is not None else None
     rtype = A.region_type(cls_name, ctype)
-    ex = Explorer(f"{prop}:run[{cls_name},{(ctype or '')[5:9]},{cone},N={N},q={batch},k={steps}{',S=' + str(initial_S) if initial_S else ''}]",
+    ex = Explorer(f"{prop}:run[{cls_name},{(ctype or '')[5:9]},{cone},N={N},q={batch},k={steps}{',S=' + str(initial_S) if initial_S else ''}{',P=' + str(initial_P) if initial_P else ''}]",
                   query_timeout_ms=30000, max_paths=60000, max_depth=2000)
     ex.stop_after_candidates = 3
 
@@ -146,6 +146,11 @@ def run_task(cls_name, ctype, cone, W, N, steps, batch, prop, tier, budget=None,
             # a sparse mid-run state: only these designs are still candidates (the rest were discarded earlier);
             # their indices are chosen so that the iteration order of the Python set differs from the sorted order
             a.S = set(initial_S)
+        if initial_P is not None:
+            # … and these were declared Pareto earlier and are no longer useful (P \ U non-empty while S is not empty)
+            a.P = set(initial_P)
+            if hasattr(a, "U"):
+                a.U = set()
         prob = RecProblem(ctx, m, decoupled=(cls_name in ("PaVeBaPartialGP", "DecoupledGP")))
         a.problem = prob
         regs_now = lambda: a.design_space.confidence_regions if hasattr(a, "design_space") else []  # noqa
